@@ -5,6 +5,7 @@ import RbV.Lemmas.AlignRev
 import RbV.Model.PairwiseCustom
 import RbV.Model.PairwiseFill
 import RbV.Lemmas.FillFinal
+import RbV.Lemmas.FillAccept
 import RbV.Thm.GenLimits
 import RbV.Thm.GenTbCodes
 /-!
@@ -82,7 +83,8 @@ proved below as `custom_score_eq_opt_partial` / `best_prefix_suffix_symmetry`; (
 j, `S[j%2][i]`, `I[j%2][i]`, `D[j%2][i]` are the optima over alignments of sub-ranges ending at (i, j) in the
 respective layer, with prefix clips charged, and `Sn[i]`, `S[·][m]` the best suffix-clipped continuations; (3) the
 traceback follows cells whose recorded predecessor attains the cell's value, so the emitted operations recompute to
-`score`.  Step (2) is proved for the functional mirror of the fill (`fill_score_eq_opt`, next section); step (3) is open. -/
+`score`.  Steps (2) and (3) are proved for the functional mirror `Model/PairwiseFill.lean` (`fill_score_eq_opt`,
+`custom_model_accepted`, next section). -/
 
 /-- **Proved fragment (step 1 of `custom_score_eq_opt`)**: the score of an operation list is invariant under
 reversing both sequences and the list — a run of k insertions/deletions costs `go + k·ge` from either end — so the
@@ -124,8 +126,8 @@ optimum of the documented model.  No size bound; proof by the column invariant (
   equivalent mutants m2/m12, neither the second post-loop, nor the x-suffix register of the inner columns, nor the
   "delete y[0..j]" half of `xclip_score`, nor `yclip_score` are needed for this direction);
 * `Sane`: junk cannot be the final score, because the score dominates the all-gaps global alignment.
-What stays open of `custom_score_eq_opt`: the traceback (step 3), and the equality of the functional with the
-imperative model (sampled by the driver on every call, not proved). -/
+Step (3), the traceback, is `custom_model_accepted` below.  What stays open: the equality of the functional with the
+imperative model and with the implementation (sampled by the driver on every call, not proved), and `i32`. -/
 
 /-- **The DP of `Aligner::custom` computes the optimum.**  `W` is any bound on the substitution scores that occur;
 `Sane` makes `MIN_SCORE` act as minus infinity (`MIN_SCORE + (m+n)·W < 2·gap_open + (m+n)·gap_extend`). -/
@@ -174,6 +176,52 @@ theorem fill_score_ge_every_alignment (sc : Sc) (cl : Clip) (x y : List Nat) (hg
   obtain ⟨h1, h2, h3, h4, _⟩ := ha
   obtain ⟨c, hc, rfl⟩ := hv
   exact Model.PairwiseFill.score_complete hge hxs a.xs a.xe a.ys a.ye a.ops c h1 h2 h3 h4 hc
+
+/-! #### The traceback: the whole function is accepted
+
+`Model.PairwiseFill.custom` adds to the fill the traceback cells (S/I/D fields written under the conditions of the Rust
+text), `Lx`, `Ly`, the rewriting of the last column by the two post-loops, and the traceback `loop` (with fuel
+`2(m+n)+16`).  The driver compares its whole `Alignment` with the implementation's on every call (`fill-path=impl` /
+`drift-fill-path`).  `custom_model_accepted` is the full statement `custom_score_eq_opt` of the plan above, for this
+functional mirror: the loop terminates inside its fuel, and the reported alignment passes `accept` — by
+`C01_accept_iff`: it is a real alignment of the reported sub-ranges, obeys the clip representation rule, its recomputed
+score (clip penalties included) **equals** the reported score, and the reported score is optimal.
+
+Proof (`RbV/Lemmas/FillWitAt.lean` … `FillAccept.lean`): `Good T i j c v` — started at `(i, j)` with `last_layer = c`
+the loop stops after `≤ i + j` iterations and what it pushed is an alignment of value `≥ v`, with the four coordinate
+registers and the clip lengths right; one lemma per arm of the `match`; the fill writes, next to every value, a code
+that is good for it (columns `j < n`: induction over `j`, `i`; column `n`: the rows through both post-loops, then the
+registers `S[curr][m]` / S field of `traceback[m][n]` / `Lx[n]`).  The path's value is `≥` the reported score and
+`≤` the optimum, which the score equals by `fill_score_eq_opt` — hence equality.  That no cell holds junk (so that no
+code is the untouched default and no gap is "extended" out of a sentinel) is `RbV/Lemmas/FillLower.lean`. -/
+
+/-- **The functional mirror of the whole of `Aligner::custom` is accepted** (same hypotheses as `fill_score_eq_opt`) -/
+theorem custom_model_accepted (sc : Sc) (cl : Clip) (x y : List Nat) (W : Int)
+    (hgo : sc.go ≤ 0) (hge : sc.ge ≤ 0) (hcl : cl.xp ≤ 0 ∧ cl.xs ≤ 0 ∧ cl.yp ≤ 0 ∧ cl.ys ≤ 0)
+    (hsane : Model.PairwiseFill.Sane sc x y W) :
+    ∃ o, Model.PairwiseFill.custom sc cl x y = some o ∧ accept sc cl false x y o = true := by
+  obtain ⟨hW, hw, hs⟩ := hsane
+  refine Model.PairwiseFill.custom_accept_aux
+    ⟨hgo, hge, hcl.1, hcl.2.1, hcl.2.2.1, hcl.2.2.2, hW, fun i j hi hj => hw _ ?_ _ ?_⟩ hs
+  · rw [List.getD_eq_getElem?_getD, List.getElem?_eq_getElem hi]; exact List.getElem_mem hi
+  · rw [List.getD_eq_getElem?_getD, List.getElem?_eq_getElem hj]; exact List.getElem_mem hj
+
+/-- spelled out with `C01_accept_iff`: the model's output has the three properties of C01 -/
+theorem custom_model_correct (sc : Sc) (cl : Clip) (x y : List Nat) (W : Int)
+    (hgo : sc.go ≤ 0) (hge : sc.ge ≤ 0) (hcl : cl.xp ≤ 0 ∧ cl.xs ≤ 0 ∧ cl.yp ≤ 0 ∧ cl.ys ≤ 0)
+    (hsane : Model.PairwiseFill.Sane sc x y W) :
+    ∃ o, Model.PairwiseFill.custom sc cl x y = some o ∧ IsAln x y o.toAln ∧ ClipRule false x y o ∧
+      AlnScore sc cl x y o.toAln o.score ∧ Optimal sc cl x y o.score := by
+  obtain ⟨o, ho, ha⟩ := custom_model_accepted sc cl x y W hgo hge hcl hsane
+  exact ⟨o, ho, (C01_accept_iff sc cl false x y o).mp ha⟩
+
+-- non-vacuity: the model's whole output on the module-doc call, and the theorem instantiated on it
+example : Model.PairwiseFill.custom scU' ⟨-1, -2, minScore, minScore⟩ [0, 1, 1, 0] [1, 1] =
+    some ⟨-1, 1, 3, 0, 2, 4, 2, [.xclip 1, .core .mat, .core .mat, .xclip 1]⟩ := by decide +kernel
+example : ∃ o, Model.PairwiseFill.custom scU' ⟨-1, -2, minScore, minScore⟩ [0, 1, 1, 0] [1, 1] = some o ∧
+    accept scU' ⟨-1, -2, minScore, minScore⟩ false [0, 1, 1, 0] [1, 1] o = true :=
+  custom_model_accepted scU' ⟨-1, -2, minScore, minScore⟩ [0, 1, 1, 0] [1, 1] 1 (by decide) (by decide) (by decide)
+    (by decide)
 
 -- non-vacuity: the hypotheses hold (`decide`) for the module-doc style call (x prefix clip −1, x suffix clip −2, y clips
 -- `MIN_SCORE`), W = 1, and the theorem then gives the concrete equation; the value is −1
